@@ -280,13 +280,38 @@ func vfMicroRun(t *testing.T, property string, testName string, scenarios map[st
 		names = append(names, n)
 	}
 	sort.Strings(names)
+	// the one scenario whose schedule space at the tier's bound does not fit the tier's budget (>100 000 schedules with 2
+	// preemptions) goes last and is explored bound by bound: everything with one preemption less first - that is the bound
+	// the tier declares complete for it -, then the tier's bound with whatever time is left (reported, not part of the
+	// exhaustiveness claim)
+	const heavy = "real-receiver-lifetime-ends-during-accept"
+	sort.SliceStable(names, func(i, j int) bool { return names[i] != heavy && names[j] == heavy })
 	var schedules, decisions int64
 	exhaustive := true
 	var summary []string
 	outcomes := map[string]int64{}
 	for _, name := range names {
 		body := scenarios[name]
-		st, viols := vrt.ExploreSharded(t, pool, name, bound, 3000, deadline, body)
+		declared := bound
+		if name == heavy {
+			declared = bound - 1
+		}
+		st, viols := vrt.ExploreSharded(t, pool, name, declared, 3000, deadline, body)
+		if name == heavy {
+			res.Set("micro_bound_completed_"+name, int64(declared))
+			st2, viols2 := vrt.ExploreSharded(t, pool, name, bound, 3000, deadline, body)
+			viols = append(viols, viols2...)
+			schedules += st2.Executions
+			decisions += st2.Decisions
+			for o, c := range st2.Outcomes {
+				outcomes[name+": "+o] += c
+			}
+			summary = append(summary, fmt.Sprintf("%s, beyond its declared bound (%d preemptions): %d schedules, complete: %v", name, bound, st2.Executions, st2.Exhaustive))
+			if len(st2.HarnessErrors) > 0 {
+				res.Set("harness_errors_"+name, st2.HarnessErrors[:1])
+				st.Exhaustive = false
+			}
+		}
 		perSig := map[string]int{}
 		for _, v := range viols {
 			perSig[v.Signature]++
@@ -301,7 +326,7 @@ func vfMicroRun(t *testing.T, property string, testName string, scenarios map[st
 		for o, c := range st.Outcomes {
 			outcomes[name+": "+o] += c
 		}
-		summary = append(summary, fmt.Sprintf("%s: %d schedules, <=%d decisions, %d deadlocks, %d divergences", name, st.Executions, st.MaxPoints, st.Deadlocks, st.Diverged))
+		summary = append(summary, fmt.Sprintf("%s (<=%d preemptions): %d schedules, <=%d decisions, %d deadlocks, %d divergences", name, declared, st.Executions, st.MaxPoints, st.Deadlocks, st.Diverged))
 		if len(st.HarnessErrors) > 0 {
 			res.Set("harness_errors_"+name, st.HarnessErrors[:1])
 		}
